@@ -8,13 +8,19 @@ CFG = {
         "Leptos.Hydrate.C05_parse_print",
         # the walk finds every node, creates none, binds the existing nodes in order (all views, every DOM holding domOf v)
         "Leptos.Hydrate.C05_hydrate_succeeds",
+        "Leptos.Hydrate.C05_load_realises",
         "Leptos.Hydrate.C05_hydrate_parsed",
         # the hydrated state is a client-built state up to node identity (any DOM, any cursor)
         "Leptos.Hydrate.C05_state_eq_build_state_mod_ids",
+        # the DOM after hydration shows what a client-built DOM shows, comments aside (partial: no empty string) + refutation of the full form
+        "Leptos.Hydrate.C05_initial_dom_like_csr_partial",
+        "Leptos.Hydrate.C05_initial_dom_like_csr_full_false",
         # refutation of "then like CSR" (F-C05-1), kernel-evaluated
         "Leptos.Hydrate.C05_empty_text_witness",
         "Leptos.Hydrate.C05_empty_text_witness_mid",
         "Leptos.Hydrate.C05_then_like_csr_full_false",
+        # F-C05-2 (outside the grammar of the theorems): raw-text elements keep no child state
+        "Leptos.Hydrate.C05_raw_text_child_witness",
         # the lemmas the view theorems rest on
         "Leptos.Hydrate.run_view",
         "Leptos.Hydrate.run_list",
@@ -25,6 +31,13 @@ CFG = {
         "Leptos.Hydrate.realises_of_realisesB",
         "Leptos.Hydrate.wfH_of_wfV",
         "Leptos.Hydrate.isVoid_agree",
+        "Leptos.Hydrate.loadRoot_realises",
+        "Leptos.Hydrate.load_spec",
+        "Leptos.Hydrate.loadL_spec",
+        "Leptos.Hydrate.setAttrs_spec",
+        "Leptos.Hydrate.nodupAttrs_dom",
+        "Leptos.Hydrate.initial_view",
+        "Leptos.Hydrate.attrs_like_csr",
         "Leptos.Hydrate.sibling_next",
         "Leptos.Hydrate.next_node",
     ],
@@ -32,14 +45,15 @@ CFG = {
     "harness_bin": "c05",
     "n": {"quick": 12000, "thorough": 400000},
     "trivial_tags": ["plain"],
-    "rule": "forced coverage first: 42 hand-written (A, B) pairs, one per shape DESIGN §7 C05 names (adjacent strings top-level and in an "
+    "rule": "forced coverage first: 43 hand-written (A, B) pairs, one per shape DESIGN §7 C05 names (adjacent strings top-level and in an "
             "element; the empty string first / middle / last / alone, kept and changed; text after an element and element after text; "
             "Option none<->some between strings and in an element; Either switch, same branch, unit branch; Vec empty / of elements / of strings "
             "followed by a sibling, grow, shrink, clear, fill, Vec after a string, Vec of Vec, Vec of Option; nested tuples (fragments); `()` "
             "alone and between strings; void elements; a child-less container; an element whose children follow a dynamic node; String / bool / "
-            "Option<String> attributes; an AnyView whose type changes on rebuild); then n seeded random cases: A = 1..3 sibling views of depth 1..4 "
+            "Option<String> attributes; a <style> with an unchanged string child; an AnyView whose type changes on rebuild); then n seeded random cases: A = 1..3 sibling views of depth 1..4 "
             "over 16 container tags (incl. a custom element) + 4 void tags in a nesting the HTML tree builder accepts, strings from 20 atoms "
-            "(markup characters, entity-like text, `<!>`, `-->`, non-ASCII, white space) with the empty string at 1/6, attribute kinds fixed per tag; "
+            "(markup characters, entity-like text, `<!>`, `-->`, non-ASCII, white space) with the empty string at 1/6, attribute kinds fixed per tag (with RAW_TEXT_CASES = true in the "
+            "harness, off until class raw-text-child is listed: 1 container in 40 is a <textarea>/<style> with one string child); "
             "B = A with every dynamic choice re-drawn (strings changed or kept, Option toggled, Either switched, Vec cleared / halved / extended, "
             "1/25 of the nodes replaced by a different view); 1 case in 12 is a `mis` op (A hydrated against the DOM of another view: the walk's "
             "error paths). distinct = distinct op line; a case is trivial (`plain`) when it has no tag (no adjacent strings, no empty string, no "
@@ -70,10 +84,10 @@ CFG = {
         "(C06's assumption); strings free of NUL/CR (F-C06-3/4); plain / boolean / optional attributes with distinct tokenizable names "
         "(class and style values are normalised differently by SSR and by the DOM: C03/C06); tuples of at most 6 components in the harness",
         "not covered: Keyed, StaticVec / Fragment (nested tuples are), InertElement and view! templates (FROM_SERVER = false), islands, "
-        "inner_html, raw-text elements with children (ESCAPE_CHILDREN = false: hydrate keeps no child state — see limits in the report), "
+        "inner_html; raw-text elements with children are modelled and exercised but outside the theorems' grammar (F-C05-2), "
         "<pre>/<textarea> leading-newline and table/select foster-parenting rules of the HTML parser (outside the parser subset)",
-        "C05_hydrate_succeeds quantifies over every DOM that holds domOf v (predicate Realises); that the harness' loader produces such a DOM is "
-        "evaluated by the driver on every case (loadOK) and kernel-checked on the examples; the general statement C05_load_realises_stmt is OPEN",
+        "C05_hydrate_succeeds quantifies over every DOM that holds domOf v (predicate Realises); C05_load_realises proves that the loader of the "
+        "harness (one node per parsed node, in document order) produces such a DOM; the driver re-evaluates both on every case (model self-check)",
         "C05_then_like_csr_partial_stmt (no empty string in A => hydrated-then-rebuilt = client-built-then-rebuilt, comments aside) is OPEN as a "
         "theorem: it is evaluated on every generated pair by the model and by the real code, and kernel-checked on the examples",
     ],
@@ -84,9 +98,10 @@ CFG = {
                 "bound): the HTML parser reads the SSR string as exactly the expected node sequence incl. the <!> markers and the ' ' of an "
                 "empty string; on every DOM holding that sequence the cursor walk of hydrate::<true> reaches no failed_to_cast branch, creates "
                 "no node and returns exactly the state that adopts the existing nodes front to back (kinds and text data as retained); whenever "
-                "the walk succeeds the state equals a client-built state up to node identity. 'Behaves like a client-built view afterwards' is "
-                "refuted by a kernel-evaluated witness (F-C05-1: the empty string stays ' ' after hydration) and otherwise established by "
-                "differential testing only (statement OPEN). Tied to the code by a byte-for-byte differential run: real to_html (+ both stream "
+                "the walk succeeds the state equals a client-built state up to node identity; for views without an empty string the DOM after "
+                "hydration shows, comments aside, exactly what a client-side build shows (same elements, attributes, text). 'Behaves like a "
+                "client-built view' is refuted in general by a kernel-evaluated witness (F-C05-1: the empty string stays ' ' after hydration); "
+                "equivalence under later rebuilds is established by differential testing only (statement OPEN). Tied to the code by a byte-for-byte differential run: real to_html (+ both stream "
                 "forms) -> independent Rust HTML parser -> native DOM -> real hydrate::<true> (outcome / error kind, nodes created) -> real "
                 "rebuild, against a client-built twin; the Lean parser is compared with the Rust parser on every SSR string.",
         "design_ref": "DESIGN.md §6.3, §6.4, §7 C05, §8 F-C05-1",
